@@ -253,6 +253,7 @@ class System:
                 out.append(("startTest",))
                 if self.skippair:
                     out.append(("skippair",))
+                    out.append(("classskip",))
                 out.append(("placeholder",))
         elif not m.has_outcome:
             out.append(("addSuccess",))
@@ -282,7 +283,13 @@ class System:
                 m.in_test = False
                 m.runs += 1
             elif name == "tags":
-                top.tags(set(op[1]), set(op[2]))
+                # (the two sets are the caller's: it goes on using them for something else)
+                new_set, gone_set = set(op[1]), set(op[2])
+                top.tags(new_set, gone_set)
+                new_set.clear()
+                gone_set.clear()
+                new_set.add("caller's-own-1")
+                gone_set.add("caller's-own-2")
                 if m.in_test:
                     m.L = (m.L | op[1]) - op[2]
                     m.LB = (m.LB | op[1]) - op[2]
@@ -315,6 +322,13 @@ class System:
                 m.tests += 1
                 expect_seen = m.G
                 expect_branch = m.G  # (a Tagger adds its tags at startTest, which never came)
+            elif name == "classskip":
+                # what unittest's suite emits when setUpClass skips: a lone addSkip for a pseudo
+                # test, neither startTest before it nor stopTest after it
+                top.addSkip(T1, "class-level why")
+                m.tests += 1
+                expect_seen = m.G
+                expect_branch = m.G
             elif name == "placeholder":
                 PlaceHolder("ph", tags={"p"}).run(top)
                 m.tests += 1
